@@ -1,5 +1,255 @@
-(* C04 -- property theorems (placeholder while the correspondence is brought up) *)
-From V Require Import Base.Word C04.GroupOps C04.FixedBase.
+(* C04 -- every scalar-multiplication path computes k . P.
 
-Example C04_window_small : compute_window_size 31 = 3 /\ compute_window_size 32 = 3 /\ compute_window_size 1000 = 6.
+   Setting of every theorem: (A, aadd, aneg, azero) is a commutative group with Leibniz equality
+   (`abelian_group`: for a curve A is the set of affine points with the chord-and-tangent / Edwards
+   law; its associativity is the classical hypothesis `affine_law_is_group`, not re-proved), and
+   the dictionary `Ops : Gops R B` of representation-level operations (R = Projective, B = Affine:
+   add, mixed add, double, negations, conversions, batch normalisation) `realises` that law through
+   phi : R -> A, phib : B -> A (what C03 proves about the projective formulas).  `smul k P` is
+   k . P defined by iteration.  The model functions are the ones coq/C04/Run.v executes against
+   the Rust code. *)
+From V Require Import Base.Word C15.BigIntModel C15.BitsProofs
+  C04.GroupOps C04.GroupTheory C04.ScalarMul C04.Wnaf C04.Glv C04.FixedBase
+  C04.ScalarMulProofs C04.WnafProofs C04.GlvProofs C04.FixedBaseProofs C04.GlvShipped C04.Run.
+
+(* ---------- double-and-add ---------- *)
+
+(* mul_projective on every limb slice: any length, leading zero limbs, values >= r *)
+Theorem C04_double_and_add_spec :
+  forall (A : Type) (aadd : A -> A -> A) (aneg : A -> A) (azero : A), abelian_group aadd aneg azero ->
+  forall (R B : Type) (Ops : Gops R B) (phi : R -> A) (phib : B -> A), realises aadd aneg azero Ops phi phib ->
+  forall limbs P, wf limbs ->
+  phi (mul_bigint_proj Ops limbs P) = smul aadd aneg azero (val limbs) (phi P).
+Proof. exact (@double_and_add_spec). Qed.
+
+(* mul_affine (mixed additions) *)
+Theorem C04_double_and_add_affine_spec :
+  forall (A : Type) (aadd : A -> A -> A) (aneg : A -> A) (azero : A), abelian_group aadd aneg azero ->
+  forall (R B : Type) (Ops : Gops R B) (phi : R -> A) (phib : B -> A), realises aadd aneg azero Ops phi phib ->
+  forall limbs Q, wf limbs ->
+  phi (mul_bigint_aff Ops limbs Q) = smul aadd aneg azero (val limbs) (phib Q).
+Proof. exact (@double_and_add_affine_spec). Qed.
+
+(* PrimeGroup::mul_bits_be on every big-endian bit stream (leading zeros, empty, all zero) *)
+Theorem C04_mul_bits_be_spec :
+  forall (A : Type) (aadd : A -> A -> A) (aneg : A -> A) (azero : A), abelian_group aadd aneg azero ->
+  forall (R B : Type) (Ops : Gops R B) (phi : R -> A) (phib : B -> A), realises aadd aneg azero Ops phi phib ->
+  forall bits P, Forall is_bit bits ->
+  phi (mul_bits_be Ops bits P) = smul aadd aneg azero (bval_be bits) (phi P).
+Proof. exact (@mul_bits_be_spec). Qed.
+
+(* `P * s` for the field element s of an integer k (N limbs, r <= 2^(64N)) *)
+Theorem C04_mul_scalar_spec :
+  forall (A : Type) (aadd : A -> A -> A) (aneg : A -> A) (azero : A), abelian_group aadd aneg azero ->
+  forall (R B : Type) (Ops : Gops R B) (phi : R -> A) (phib : B -> A), realises aadd aneg azero Ops phi phib ->
+  forall N r k P, 0 < r <= Wn N ->
+  phi (mul_scalar_proj Ops N r k P) = smul aadd aneg azero (k mod r) (phi P).
+Proof. exact (@mul_scalar_spec). Qed.
+Theorem C04_mul_scalar_order_spec :
+  forall (A : Type) (aadd : A -> A -> A) (aneg : A -> A) (azero : A), abelian_group aadd aneg azero ->
+  forall (R B : Type) (Ops : Gops R B) (phi : R -> A) (phib : B -> A), realises aadd aneg azero Ops phi phib ->
+  forall N r k P, 0 < r <= Wn N -> smul aadd aneg azero r (phi P) = azero ->
+  phi (mul_scalar_proj Ops N r k P) = smul aadd aneg azero k (phi P).
+Proof. exact (@mul_scalar_order_spec). Qed.
+
+(* ---------- windowed NAF ---------- *)
+
+(* table: 2^(w-1) entries, entry i = (2i+1) . base *)
+Theorem C04_wnaf_table_spec :
+  forall (A : Type) (aadd : A -> A -> A) (aneg : A -> A) (azero : A), abelian_group aadd aneg azero ->
+  forall (R B : Type) (Ops : Gops R B) (phi : R -> A) (phib : B -> A), realises aadd aneg azero Ops phi phib ->
+  forall w base, 1 <= w ->
+  Z.of_nat (length (wnaf_table Ops w base)) = 2 ^ (w - 1) /\
+  table_ok aadd aneg azero phi (phi base) (wnaf_table Ops w base).
+Proof. exact (@wnaf_table_spec). Qed.
+
+(* mul_with_table = k . P: every window 2 <= w < 64, every sufficiently long table of odd multiples
+   (fresh, precomputed, longer than needed), every scalar; the digits are those of the C15 model of
+   find_wnaf (their reconstruction property is C15_find_wnaf, imported, not assumed) *)
+Theorem C04_wnaf_mul_spec :
+  forall (A : Type) (aadd : A -> A -> A) (aneg : A -> A) (azero : A), abelian_group aadd aneg azero ->
+  forall (R B : Type) (Ops : Gops R B) (phi : R -> A) (phib : B -> A), realises aadd aneg azero Ops phi phib ->
+  forall w table limbs X, 2 <= w < 64 -> wf limbs ->
+  2 ^ (w - 1) <= Z.of_nat (length table) -> table_ok aadd aneg azero phi X table ->
+  exists res, wnaf_mul_with_table Ops w table limbs = Ok res /\ phi res = smul aadd aneg azero (val limbs) X.
+Proof. exact (@wnaf_mul_spec). Qed.
+
+Theorem C04_wnaf_mul_fresh_spec :
+  forall (A : Type) (aadd : A -> A -> A) (aneg : A -> A) (azero : A), abelian_group aadd aneg azero ->
+  forall (R B : Type) (Ops : Gops R B) (phi : R -> A) (phib : B -> A), realises aadd aneg azero Ops phi phib ->
+  forall w limbs P, 2 <= w < 64 -> wf limbs ->
+  exists res, wnaf_mul Ops w P limbs = Ok res /\ phi res = smul aadd aneg azero (val limbs) (phi P).
+Proof. exact (@wnaf_mul_fresh_spec). Qed.
+
+(* a table with fewer than 2^(w-1) entries -> None; a window outside [2, 64) -> panic *)
+Theorem C04_wnaf_short_table :
+  forall (R B : Type) (Ops : Gops R B) w table limbs, 2 <= w < 64 -> Z.of_nat (length table) < 2 ^ (w - 1) ->
+  wnaf_mul_with_table Ops w table limbs = NoneRes.
+Proof. exact (@wnaf_short_table). Qed.
+Theorem C04_wnaf_bad_window :
+  forall (R B : Type) (Ops : Gops R B) w table limbs, ~ (2 <= w < 64) ->
+  wnaf_mul_with_table Ops w table limbs = Panic.
+Proof. exact (@wnaf_bad_window). Qed.
+
+(* ---------- GLV ---------- *)
+
+(* scalar_decomposition: if both basis rows lie in the lattice {(a,b) : a + lambda b = 0 (mod r)} the
+   returned signed halves satisfy k1 + lambda k2 = k (mod r) -- for every k and whatever the rounding *)
+Theorem C04_glv_decomposition_spec :
+  forall r lambda n11 n12 n21 n22 k, 0 < r ->
+  (n11 + lambda * n12) mod r = 0 -> (n21 + lambda * n22) mod r = 0 ->
+  let '(s1, s2) := glv_decomp r n11 n12 n21 n22 k in
+  (glv_signed s1 + lambda * glv_signed s2) mod r = k mod r /\ 0 <= snd s1 < r /\ 0 <= snd s2 < r.
+Proof. exact glv_decomposition_spec. Qed.
+
+(* size of the halves when the basis has determinant r *)
+Theorem C04_glv_halves_bound :
+  forall r n11 n12 n21 n22 k, 0 < r -> n11 * n22 - n12 * n21 = r ->
+  let '(k1, k2) := glv_halves r n11 n12 n21 n22 k in
+  Z.abs k1 <= Z.abs n11 + Z.abs n21 /\ Z.abs k2 <= Z.abs n12 + Z.abs n22.
+Proof. exact glv_halves_bound. Qed.
+
+(* the joint loop: with the top bit of both halves clear (the pair the skip_zeros logic drops) it
+   returns k1 . B1 + k2 . B2 *)
+Theorem C04_glv_joint_loop_spec :
+  forall (A : Type) (aadd : A -> A -> A) (aneg : A -> A) (azero : A), abelian_group aadd aneg azero ->
+  forall (R B : Type) (Ops : Gops R B) (phi : R -> A) (phib : B -> A), realises aadd aneg azero Ops phi phib ->
+  forall b1 b2 b1b2 xs ys, phi b1b2 = aadd (phi b1) (phi b2) -> Forall is_bit xs -> Forall is_bit ys ->
+  phi (glv_loop Ops b1 b2 b1b2 (combine (0 :: xs) (0 :: ys)) true (gzero Ops))
+  = aadd (smul aadd aneg azero (bval_be (firstn (length ys) xs)) (phi b1))
+         (smul aadd aneg azero (bval_be (firstn (length xs) ys)) (phi b2)).
+Proof. exact (@glv_joint_loop_spec). Qed.
+
+(* glv_mul_projective / glv_mul_affine = k . P where the endomorphism acts as lambda and r P = 0 *)
+Theorem C04_glv_mul_spec :
+  forall (A : Type) (aadd : A -> A -> A) (aneg : A -> A) (azero : A), abelian_group aadd aneg azero ->
+  forall (R B : Type) (Ops : Gops R B) (phi : R -> A) (phib : B -> A), realises aadd aneg azero Ops phi phib ->
+  forall endo N r lambda n11 n12 n21 n22 P k, 0 < r <= Wn N -> 0 <= k < r ->
+  (n11 + lambda * n12) mod r = 0 -> (n21 + lambda * n22) mod r = 0 ->
+  glv_top_bits_clear N r n11 n12 n21 n22 k ->
+  phi (endo P) = smul aadd aneg azero lambda (phi P) -> smul aadd aneg azero r (phi P) = azero ->
+  phi (glv_mul_proj Ops endo N r n11 n12 n21 n22 P k) = smul aadd aneg azero k (phi P).
+Proof. exact (@glv_mul_spec). Qed.
+Theorem C04_glv_mul_affine_spec :
+  forall (A : Type) (aadd : A -> A -> A) (aneg : A -> A) (azero : A), abelian_group aadd aneg azero ->
+  forall (R B : Type) (Ops : Gops R B) (phi : R -> A) (phib : B -> A), realises aadd aneg azero Ops phi phib ->
+  forall endob N r lambda n11 n12 n21 n22 (Q : B) k, 0 < r <= Wn N -> 0 <= k < r ->
+  (n11 + lambda * n12) mod r = 0 -> (n21 + lambda * n22) mod r = 0 ->
+  glv_top_bits_clear N r n11 n12 n21 n22 k ->
+  phib (endob Q) = smul aadd aneg azero lambda (phib Q) -> smul aadd aneg azero r (phib Q) = azero ->
+  phib (glv_mul_aff Ops endob N r n11 n12 n21 n22 Q k) = smul aadd aneg azero k (phib Q).
+Proof. exact (@glv_mul_affine_spec). Qed.
+
+(* the curve-crate override mul_projective = glv_mul o from_sign_and_limbs: (val limbs) . P for every
+   limb slice (the model has no length restriction; the real code panics for slices longer than N
+   limbs -- finding F16) *)
+Theorem C04_glv_override_spec :
+  forall (A : Type) (aadd : A -> A -> A) (aneg : A -> A) (azero : A), abelian_group aadd aneg azero ->
+  forall (R B : Type) (Ops : Gops R B) (phi : R -> A) (phib : B -> A), realises aadd aneg azero Ops phi phib ->
+  forall endo N r lambda n11 n12 n21 n22 limbs P, 0 < r <= Wn N ->
+  (n11 + lambda * n12) mod r = 0 -> (n21 + lambda * n22) mod r = 0 ->
+  glv_top_bits_clear N r n11 n12 n21 n22 (val limbs mod r) ->
+  phi (endo P) = smul aadd aneg azero lambda (phi P) -> smul aadd aneg azero r (phi P) = azero ->
+  phi (mul_bigint_glv Ops endo N r n11 n12 n21 n22 limbs P) = smul aadd aneg azero (val limbs) (phi P).
+Proof. exact (@glv_override_spec). Qed.
+
+(* the numeric premises of the three theorems above follow from a boolean check of the constants ... *)
+Theorem C04_glv_basis_ok_sound :
+  forall N r lambda n11 n12 n21 n22, glv_basis_ok (N, (r, lambda), (n11, n12), (n21, n22)) = true ->
+  0 < r <= Wn N /\ (n11 + lambda * n12) mod r = 0 /\ (n21 + lambda * n22) mod r = 0 /\
+  forall k, glv_top_bits_clear N r n11 n12 n21 n22 k.
+Proof. exact glv_basis_ok_sound. Qed.
+(* ... which holds for the eleven shipped GLV configurations (closed finite fact; the constants are
+   compared with the Rust ones by the sw_glv_params cases of every run) *)
+Theorem C04_glv_shipped_bases_ok : length glv_shipped = 11%nat /\ forallb glv_basis_ok glv_shipped = true.
+Proof. vm_compute. split; reflexivity. Qed.
+
+(* ---------- fixed-base batch multiplication ---------- *)
+
+(* with_num_scalars_and_scalar_size builds a correct table for every (num_scalars, max_scalar_size >= 1):
+   div_ceil(max_scalar_size, window) rows, entry i of row o = (i 2^(window o)) . B for every i the
+   construction fills (2^window, fewer in the shorter last window) *)
+Theorem C04_fixed_base_table_spec :
+  forall (A : Type) (aadd : A -> A -> A) (aneg : A -> A) (azero : A), abelian_group aadd aneg azero ->
+  forall (R B : Type) (Ops : Gops R B) (phi : R -> A) (phib : B -> A), realises aadd aneg azero Ops phi phib ->
+  forall base ns mss, 1 <= mss ->
+  exists t, fb_new Ops base ns mss = Ok t /\ fb_table_ok aadd aneg azero phib (phi base) ns mss t.
+Proof. exact (@fixed_base_table_spec). Qed.
+
+(* windowed_mul = k . B for every table sizing and every canonical scalar k < 2^max_scalar_size *)
+Theorem C04_fixed_base_spec :
+  forall (A : Type) (aadd : A -> A -> A) (aneg : A -> A) (azero : A), abelian_group aadd aneg azero ->
+  forall (R B : Type) (Ops : Gops R B) (phi : R -> A) (phib : B -> A), realises aadd aneg azero Ops phi phib ->
+  forall base ns mss modbits limbs, 1 <= mss -> wf limbs ->
+  0 <= modbits <= 64 * Z.of_nat (length limbs) -> val limbs < 2 ^ modbits -> val limbs < 2 ^ mss ->
+  exists t res, fb_new Ops base ns mss = Ok t /\ fb_windowed_mul Ops t modbits limbs = Ok res /\
+                phi res = smul aadd aneg azero (val limbs) (phi base).
+Proof. exact (@fixed_base_spec). Qed.
+
+(* batch_mul on any correct table *)
+Theorem C04_fixed_base_batch_spec :
+  forall (A : Type) (aadd : A -> A -> A) (aneg : A -> A) (azero : A), abelian_group aadd aneg azero ->
+  forall (R B : Type) (Ops : Gops R B) (phi : R -> A) (phib : B -> A), realises aadd aneg azero Ops phi phib ->
+  forall X ns mss t modbits scalars, fb_table_ok aadd aneg azero phib X ns mss t -> 1 <= mss ->
+  Forall (fun limbs => wf limbs /\ 0 <= modbits <= 64 * Z.of_nat (length limbs) /\
+                       val limbs < 2 ^ modbits /\ val limbs < 2 ^ mss) scalars ->
+  exists out, fb_batch_mul Ops t modbits scalars = Ok out /\
+              map phib out = map (fun limbs => smul aadd aneg azero (val limbs) X) scalars.
+Proof. exact (@fixed_base_batch_spec). Qed.
+
+Theorem C04_compute_window_size_ge3 : forall n, 3 <= compute_window_size n.
+Proof. exact compute_window_size_ge3. Qed.
+
+(* ---------- the hypotheses are satisfiable; concrete instances ---------- *)
+
+(* the integers under addition realise every hypothesis (R = B = A = Z, phi = id): k . P = k * P *)
+Example C04_hypotheses_satisfiable :
+  abelian_group Z.add Z.opp 0 /\ realises Z.add Z.opp 0 ZGops (fun x => x) (fun x => x) /\
+  forall k P, smul Z.add Z.opp 0 k P = k * P.
+Proof. exact (conj Z_abelian_group (conj ZGops_realises Z_smul)). Qed.
+
+Example C04_double_and_add_example :
+  mul_bigint_proj ZGops [5; 0] 7 = 35 /\ mul_bigint_aff ZGops [W64 - 1; 1; 0] 1 = 2 * W64 - 1 /\
+  mul_bits_be ZGops [0; 0; 1; 0; 1] 3 = 15 /\ mul_bigint_proj ZGops [] 9 = 0.
+Proof. vm_compute. auto. Qed.
+
+Example C04_wnaf_example :
+  wnaf_table ZGops 3 5 = [5; 15; 25; 35] /\ wnaf_mul ZGops 3 5 [183] = Ok 915 /\
+  wnaf_mul_with_table ZGops 3 [5; 15; 25] [183] = NoneRes /\
+  wnaf_mul_with_table ZGops 3 [5; 15; 25; 35; 45; 55; 65; 75] [W64 - 1; W64 - 1] = Ok (5 * (W64 * W64 - 1)) /\
+  wnaf_mul ZGops 64 5 [183] = Panic.
+Proof. vm_compute. auto 6. Qed.
+
+(* toy GLV parameters (y^2 = x^3 + 2 over F_13, r = 19, lambda = 7, basis (5,2), (-2,3)); in the group Z
+   with endo = multiplication by 7 the result is k1 + 7 k2, congruent to k modulo 19 *)
+Example C04_glv_example :
+  glv_basis_ok (1%nat, (19, 7), (5, 2), (-2, 3)) = true /\
+  glv_decomp 19 5 2 (-2) 3 11 = ((false, 1), (false, 1)) /\
+  glv_mul_proj ZGops (fun x => 7 * x) 1 19 5 2 (-2) 3 1 11 = -8 /\ (-8) mod 19 = 11 /\
+  glv_mul_aff ZGops (fun x => 7 * x) 1 19 5 2 (-2) 3 1 11 = -8.
+Proof. vm_compute. auto 6. Qed.
+
+(* why glv_joint_loop_spec needs the clear top bit: if the first pair is not (0,0) the first later
+   (0,0) pair is skipped instead, losing a doubling -- (1,0),(0,0) should give 2 B1 *)
+Example C04_glv_skip_zeros_needs_clear_top_bit :
+  glv_loop ZGops 1 0 1 [(1, 0); (0, 0)] true 0 = 1 /\ glv_loop ZGops 1 0 1 [(0, 0); (1, 0); (0, 0)] true 0 = 2.
+Proof. vm_compute. auto. Qed.
+
+Example C04_fixed_base_example :
+  compute_window_size 31 = 3 /\ compute_window_size 32 = 3 /\ compute_window_size 33 = 4 /\ compute_window_size 1000 = 6 /\
+  (exists t, fb_new ZGops 1 1000 10 = Ok t /\ length (fb_rows t) = 2%nat /\
+             nth 1 (fb_rows t) [] = map (fun i => 64 * Z.of_nat i) (seq 0 16) ++ repeat 0 48 /\
+             fb_windowed_mul ZGops t 10 [777] = Ok 777) /\
+  fb_new ZGops 1 5 0 = Panic.
+Proof. vm_compute. repeat split; try reflexivity. eexists. repeat split; reflexivity. Qed.
+
+(* Observation O5 (glv_outside_subgroup): the premises `phi(P) = lambda P` and `r P = 0` of C04_glv_mul_spec
+   are needed.  On the toy curve y^2 = x^3 + 3 over F_103 (124 points, r = 31, cofactor 4, beta = 56,
+   lambda = 5, basis (5,-1), (1,6)) the point Q = (6, 61) has order 62; glv_mul_projective(Q, 3) (op 10)
+   is (90, 81) while 3 Q by double-and-add (op 3) is (47, 38).  The Rust code returns the same two points. *)
+Example C04_glv_outside_subgroup_observation :
+  run_C04 10 [[11]; [103; 1; 0]; [0]; [3]; [31; 1; 5; 0]; [5; 5; -1; 1; 6]; [56]; [3]; [6; 61; 1]]
+    = [[0]; [90; 81; 0]; [90; 81; 0]] /\
+  run_C04 3 [[11]; [103; 1; 0]; [0]; [3]; [31; 1; 5; 0]; [5; 5; -1; 1; 6]; [56]; [3]; [6; 61; 1]]
+    = [[0]; [47; 38; 0]; [47; 38; 0]].
 Proof. vm_compute. auto. Qed.
